@@ -82,6 +82,7 @@ type hcPlan struct {
 	initMCS  int
 	initWU   int // connection WINDOW_UPDATE sent with the first SETTINGS
 	autoFrom int // connections with index >= autoFrom are served "normally"
+	wbound   int // >0: the client's writes meet back-pressure (bounded buffer towards the server, stall events)
 	reqs     []hcReqPlan
 	ops      []hcOp
 }
@@ -119,6 +120,9 @@ func hcDrawPlan(rt *rapid.T, focus string) *hcPlan {
 		p.maxRead = uint32(vs.Pick(c, 0, 16384, 1<<20))
 		nreq = vs.Range(c, 1, vs.Thorough(24, 60))
 		postPct, maxBody = 35, 3000
+		if vs.Pct(c, 30) {
+			p.wbound = vs.Pick(c, 9, 64, 300)
+		}
 	case "C11":
 		p.connWin = vs.Pick(c, 65535, 100000, 0)
 		p.strWin = vs.Pick(c, 1000, 1, 100, 16384, 65535, 200000, 0)
@@ -131,6 +135,9 @@ func hcDrawPlan(rt *rapid.T, focus string) *hcPlan {
 		nreq = vs.Range(c, 2, 20)
 		p.autoFrom = 1 << 30
 		postPct, maxBody = 30, 3000
+		if vs.Pct(c, 30) {
+			p.wbound = vs.Pick(c, 9, 64, 300)
+		}
 	case "C18":
 		p.strict = vs.Pct(c, 30)
 		p.initMCS = vs.Pick(c, -1, -1, 1, 2, 5)
@@ -444,14 +451,15 @@ type hcPing struct {
 }
 
 type hcConn struct {
-	idx  int
-	sc   *vs.StreamConn
-	cc   *ClientConn
-	fr   *Framer
-	hbuf bytes.Buffer
-	henc *hpack.Encoder
-	mon  *vmParser
-	auto bool
+	wstalled bool // the client->server path is currently stopped (back-pressure runs)
+	idx      int
+	sc       *vs.StreamConn
+	cc       *ClientConn
+	fr       *Framer
+	hbuf     bytes.Buffer
+	henc     *hpack.Encoder
+	mon      *vmParser
+	auto     bool
 
 	base    []byte
 	sbase   []int
@@ -464,17 +472,18 @@ type hcConn struct {
 	lastSID uint32
 	hdrStep int
 
-	cliIW       int64
-	cliMaxFrame int64
-	gotCliSet   bool
-	cliAcks     int
-	cliConnWUs  []hcWU
-	cliConnWU   int64
-	cliConnFlow int64
-	cliGoAway   bool
-	cliGoAwayCd ErrCode
-	cliClosed   bool
-	flowErr     bool // the client reported FLOW_CONTROL_ERROR in some form
+	cliIW         int64
+	cliMaxFrame   int64
+	gotCliSet     bool
+	cliAcks       int
+	acksAtPrevHdr int // cliAcks when the previous request HEADERS block was written
+	cliConnWUs    []hcWU
+	cliConnWU     int64
+	cliConnFlow   int64
+	cliGoAway     bool
+	cliGoAwayCd   ErrCode
+	cliClosed     bool
+	flowErr       bool // the client reported FLOW_CONTROL_ERROR in some form
 
 	sSettings   []hcSettings
 	connWUs     []hcWU
@@ -745,6 +754,27 @@ func (cn *hcConn) bounds(delivered int64) (mcs, iw, mf int64) {
 	return
 }
 
+// mcsBoundSince is the MAX_CONCURRENT_STREAMS part of bounds for a stream
+// opening: the Transport takes the stream's slot (compares its count with the
+// limit) under reqHeaderMu and writes the HEADERS afterwards, possibly much later
+// when the connection's writes are blocked; SETTINGS applied and acknowledged in
+// between do not undo the decision. reqHeaderMu serialises this per connection,
+// so the decision was taken after the previous HEADERS block had been written:
+// any limit in force since then (acks as of that moment) may have been used.
+func (cn *hcConn) mcsBoundSince(acks int, delivered int64) int64 {
+	d := 0
+	for i := 1; i < len(cn.sSettings); i++ {
+		if cn.sSettings[i].endOff <= delivered {
+			d = i
+		}
+	}
+	mcs := int64(-1)
+	for j := min(acks, d); j <= d; j++ {
+		mcs = max(mcs, cn.sSettings[j].mcs)
+	}
+	return mcs
+}
+
 func (r *hcRun) newBody(rq *hcReq) *hcBody {
 	b := &hcBody{r: r, idx: rq.idx, total: rq.p.bodyLen, chunks: rq.p.chunks, eofData: rq.p.eofData, stubborn: rq.p.stubborn}
 	b.cond = sync.NewCond(&b.mu)
@@ -767,6 +797,9 @@ func (r *hcRun) dial(ctx context.Context, network, addr string, cfg *tls.Config)
 	sc := vs.NewStreamConn(r.sim, fmt.Sprintf("h2c%d", idx))
 	sc.DeliverWeight = 4
 	sc.DiscardAB() // the scripted server "reads" through the tap
+	if r.p.wbound > 0 && idx < r.p.autoFrom {
+		sc.BoundAB(r.p.wbound)
+	}
 	sc.SplitHintBA = hcSplitHint
 	cn := &hcConn{idx: idx, sc: sc, streams: map[uint32]*hcStream{}, auto: idx >= r.p.autoFrom,
 		cliIW: 65535, cliMaxFrame: 16384}
@@ -917,6 +950,8 @@ func (r *hcRun) onClientFrame(cn *hcConn, f *vmFrame) *vs.Violation {
 				open++
 			}
 		}
+		mcsMax = cn.mcsBoundSince(min(cn.acksAtPrevHdr, cn.cliAcks), delivered)
+		cn.acksAtPrevHdr = cn.cliAcks
 		if int64(open)+1 > mcsMax {
 			sig := "cli:nonstrict_headers_on_full_conn"
 			if r.p.strict {
@@ -1617,6 +1652,12 @@ func (r *hcRun) heal() {
 	r.mu.Lock()
 	defer r.mu.Unlock()
 	r.healed = true
+	for _, cn := range r.conns {
+		if cn.wstalled {
+			cn.wstalled = false
+			cn.sc.StallAB(false)
+		}
+	}
 	for _, cn := range r.scriptedConns(func(cn *hcConn) bool { return true }) {
 		cur := cn.cur()
 		iw, mf, mcs := -1, -1, -1
@@ -1687,6 +1728,27 @@ func (r *hcRun) Events(now time.Time) []vs.Event {
 				}
 				evs = append(evs, vs.Event{Label: fmt.Sprintf("body r%d.%d read", b.idx, b.inst), Weight: w, Run: b.grant})
 			}
+		}
+	}
+	if r.p.wbound > 0 && !r.healed {
+		// the path towards a scripted server stops/resumes draining: the client's
+		// frame writes (HEADERS flushes included) block while it is stopped. (Needs
+		// the verif build tag of /repo: ClientConn.wmu waiters must block durably.)
+		for _, cn := range r.conns {
+			if cn.auto || cn.srvClosed || cn.sc.IsCut() {
+				continue
+			}
+			cn := cn
+			evs = append(evs, vs.Event{Label: fmt.Sprintf("net stall toggle c%d A>B", cn.idx), Weight: 1, Run: func() {
+				r.mu.Lock()
+				cn.wstalled = !cn.wstalled
+				on := cn.wstalled
+				r.mu.Unlock()
+				cn.sc.StallAB(on)
+				if on {
+					vs.G.Inc("fault.client_write_stall")
+				}
+			}})
 		}
 	}
 	if r.nextOp < len(r.p.ops) {
